@@ -2,7 +2,7 @@
    Input :  META nd {kind periodic period sigma width gperiodic expand hardlo hardup lower upper nx}*nd
                  weight hill_width freq gfreq use_grids keep wt bias_temp kb step_zero dumpgrid
                  ebmeta equil_steps ntarget target_1..target_ntarget
-                 nevents { S it rel cont x.. | W | R | B {lower upper nx}*nd }*nevents
+                 nevents { S it rel cont x.. | W | R | L | B {lower upper nx}*nd }*nevents
             kind = 0 scalar (1 component), 1 3-vector, 2 unit vector (3 components), 3 quaternion (4); x.. = all components of
             all variables; W = the state is written (write_state_data); R = restart (state written, read by a fresh
             instance); B = restart with rebinGrids and the new boundaries
@@ -69,6 +69,7 @@ let () =
              match next () with
              | "W" -> st := save_state fops c !st
              | "R" -> st := restart_state fops c !st None
+             | "L" -> st := reload_state fops c !st
              | "B" ->
                let g' = List.init nd (fun _ ->
                    let lower = nf () in let upper = nf () in let nx = ni () in
